@@ -18,11 +18,13 @@ import (
 var table = map[string]func(*core.Ctx){
 	"C01": props.C01,
 	"C02": props.C02,
+	"C03": props.C03,
 	"C05": props.C05,
 	"C06": props.C06,
 	"C07": props.C07,
 	"C08": props.C08,
 	"C09": props.C09,
+	"C13": props.C13,
 }
 
 func main() {
